@@ -15,6 +15,7 @@ import Orda.Proofs.DocRemoteInv
 import Orda.Proofs.DocTxNet
 import Orda.Proofs.RestPatch
 import Orda.Proofs.RestPatchCreate
+import Orda.Proofs.TxNetCreate
 namespace Orda.Props.C19
 open Orda
 
@@ -203,5 +204,14 @@ theorem rest_patch_empty_target_on_absent_key_creates_nothing
     (hc : st.getCollection colName = some col) (hd : st.getDatatypeByKey col.num key = none) :
     st.patchDocument colName key (.obj []) tmpDuid tmpCuid = (st, .ok (.obj []), [], []) :=
   RestP.patchDocument_create_empty_target_stores_nothing st colName key tmpDuid tmpCuid col hc hd
+
+open Orda.DNet Orda.DTx Orda.TxNetC in
+/-- in EVERY reachable state of the system that starts with a creating client, PatchByJSON on any node succeeds and yields the target -/
+theorem patchByJSON_reaches_target_anywhere_created {cuid : Nat → String} {n : Nat} {net : Net} (h : ReachC cuid n net) {i : Nat}
+    {nd : Node} (hi : net.nodes[i]? = some nd) {d : Doc} (hd : nd.r.state = .doc d) (tgt : List (String × JVal))
+    (hn : (JVal.obj tgt).hasNull = false) (hk : DC.JKeysND (.obj tgt)) :
+    ∃ d', (nd.r.patchByJSON (.obj tgt)).1.state = .doc d' ∧ (nd.r.patchByJSON (.obj tgt)).2.2 = .ok () ∧
+      d'.view.canon = (JVal.obj tgt).canon :=
+  created_dtx_patch_reaches_target_anywhere h hi hd tgt hn hk
 
 end Orda.Props.C19
